@@ -248,6 +248,20 @@ impl<'a, 'tcx> BodyCx<'a, 'tcx> {
                 let _ = write!(o, ",\"uneval\":{}", js(&key(tcx, uv.def)));
                 if let Some(p) = uv.promoted {
                     let _ = write!(o, ",\"promoted\":{}", p.as_u32());
+                } else if uv.args.is_empty() && (ty.is_integral() || ty.is_bool()) {
+                    // named integer constant (array sizes, lookahead limits): evaluate it
+                    if let Ok(rustc_middle::mir::ConstValue::Scalar(sc)) = tcx.const_eval_poly(uv.def) {
+                        if let Ok(si) = sc.try_to_scalar_int() {
+                            let size = si.size();
+                            let bits = si.to_bits(size);
+                            if ty.is_signed() {
+                                let v = size.sign_extend(bits) as i128;
+                                let _ = write!(o, ",\"int\":{}", js(&v.to_string()));
+                            } else {
+                                let _ = write!(o, ",\"int\":{}", js(&bits.to_string()));
+                            }
+                        }
+                    }
                 } else if uv.args.is_empty() && matches!(ty.kind(), ty::Adt(..)) {
                     // named constant of a scalar newtype (bit sets): evaluate it
                     if let Ok(rustc_middle::mir::ConstValue::Scalar(sc)) = tcx.const_eval_poly(uv.def) {
@@ -266,6 +280,21 @@ impl<'a, 'tcx> BodyCx<'a, 'tcx> {
                     if let Some(bytes) = cv.try_get_slice_bytes_for_diagnostics(tcx) {
                         if bytes.len() <= 256 {
                             let _ = write!(o, ",\"str\":{}", js(&String::from_utf8_lossy(bytes)));
+                        }
+                    }
+                } else if let ty::Array(el, _) = inner.kind() {
+                    // byte string literal b"..": &[u8; N]
+                    if *el == tcx.types.u8 {
+                        if let rustc_middle::mir::ConstValue::Scalar(rustc_middle::mir::interpret::Scalar::Ptr(ptr, _)) = cv {
+                            let (prov, off) = ptr.prov_and_relative_offset();
+                            if let Some(rustc_middle::mir::interpret::GlobalAlloc::Memory(alloc)) = tcx.try_get_global_alloc(prov.alloc_id()) {
+                                let a = alloc.inner();
+                                let start = off.bytes() as usize;
+                                if start <= a.len() && a.len() - start <= 256 {
+                                    let bytes = a.inspect_with_uninit_and_ptr_outside_interpreter(start..a.len());
+                                    let _ = write!(o, ",\"bstr\":{}", js(&String::from_utf8_lossy(bytes)));
+                                }
+                            }
                         }
                     }
                 }
